@@ -11,7 +11,8 @@ from ..protos import stun, dns
 
 PROP = "C04"
 RULE = ("all replies of the shared reply-eliciting mix (all protocols, both IP versions, TCP and UDP, odd and even "
-        "lengths), every echo payload length 0..1472 for ICMPv4 and ICMPv6 plus sampled lengths up to 4000, and "
+        "lengths) and of its re-framed variants (IPv4 options of 4..40 bytes, Ethernet padding, total length beyond the capture, TCP "
+        "options, byte-level mutations), every echo payload length 0..1472 for ICMPv4 and ICMPv6 plus sampled lengths up to 4000, and "
         "checksum steering: after observing one reply the monitor computes the 16-bit adjustment of an echoed request "
         "field (STUN transaction id, DNS id, RPC xid, echo identifier, TCP acknowledgement number of a FIN|ACK) that drives the reply's computed "
         "checksum to 0x0000 / 0x0001 / 0xFFFE and sends the adjusted request. Every layer of every reply is re-verified "
@@ -130,7 +131,27 @@ def shard(ctx, budget_s):
         ctx.case(reset=False, record=False)
         for _ in range(3):
             steering(ctx, cfg)
-        base = [f for f in ctx.history] or [gen.endp(rng, cfg, False).echo(1, 1, b"x")]
+        # unusual but legal request framings: IPv4 options, padded frames, TCP options, plus byte-level mutations -
+        # whatever the request looks like, an emitted reply has to be well-formed
+        base = [f for f in ctx.history if not isinstance(f, str)] or [gen.endp(rng, cfg, False).echo(1, 1, b"x")]
+        variants = []
+        for f in base:
+            q = pkt.parse(f)
+            if q.get("v") == 4 and q.ip_hl == 20 and rng.random() < 0.5:
+                nopt = 4 * rng.randrange(1, 11)
+                opts = rng.choice([b"\x07" + bytes([nopt, 4]) + bytes(nopt - 3), b"\x01" * nopt, bytes(nopt)])[:nopt]
+                variants.append(f[:14] + pkt.ip4(q.src, q.dst, q.proto, q.l4, ihl=5 + nopt // 4, opts=opts))
+            if "v" in q and rng.random() < 0.3:
+                variants.append(f + bytes(rng.randrange(1, 40)))                       # Ethernet padding after the IP datagram
+            if q.get("v") == 4 and rng.random() < 0.2:
+                variants.append(f[:14] + pkt.ip4(q.src, q.dst, q.proto, q.l4, tot=len(f) - 14 + rng.randrange(1, 64)))   # total length beyond the capture
+            if q.get("flags") is not None and q.get("off") == 5 and rng.random() < 0.4:
+                e = pkt.Endp(q.eth_src, q.eth_dst, q.src, q.dst)
+                o = rng.choice([b"\x02\x04\x05\xb4", b"\x01\x01\x08\x0a" + bytes(8), b"\x02\x04\x05\xb4\x04\x02\x08\x0a" + bytes(8) + b"\x01\x03\x03\x07"])
+                variants.append(e.tcp(q.sp, q.dp, q.seq, q.ack, q.flags, q.data, off=5 + len(o) // 4, opts=o))
+        variants += [gen.mutate(rng, rng.choice(base), lo=14) for _ in range(300)]
+        for f, r in zip(variants, ctx.send_many(variants)):
+            on_reply(f, r, "variant")
         n += 1
     ctx.extra["max_reply_len"] = maxlen
     ctx.stats["configs"] += n
